@@ -139,16 +139,21 @@ def same_model_py(mv, pv):
 
 def compare_traces(model_out, py, W, C):
     """model_out: wire result of op 11/13; py: result of the instrumented CPython run.  Returns None or a description."""
+    pev = py["trace"]
     if "exc" in py:
+        # the exception may come from a condition / loop bound (not part of the model's syntax): the model, following the
+        # recorded decisions, either fails too or goes on - what it stored up to that point must be what CPython stored
         if model_out[0] == 1:
             return None
-        return f"CPython raises {py['exc']}, the reference semantics does not"
-    if model_out[0] != 0:
-        return f"the reference semantics fails (code {model_out[1]}), CPython does not"
-    mev = model_out[1]
-    pev = py["trace"]
-    if len(mev) != len(pev):
-        return f"trace lengths differ: model {len(mev)}, CPython {len(pev)}"
+        mev = model_out[1][:len(pev)]
+        if len(mev) < len(pev):
+            return f"CPython raises {py['exc']} after {len(pev)} stores, the reference semantics ends after {len(mev)}"
+    else:
+        if model_out[0] != 0:
+            return f"the reference semantics fails (code {model_out[1]}), CPython does not"
+        mev = model_out[1]
+        if len(mev) != len(pev):
+            return f"trace lengths differ: model {len(mev)}, CPython {len(pev)}"
     for i, (m, p) in enumerate(zip(mev, pev)):
         if m[0] != p[0]:
             return f"event {i}: kinds differ (model {m[0]}, CPython {p[0]})"
@@ -201,7 +206,7 @@ class CtlGen:
             if nested:
                 self.shapes["store_in_nested_block"] += 1
         k = K
-        if rng.random() < 0.07:
+        if rng.random() < 0.02:
             k = rng.choice([kk for kk in KINDS if kk != K])
             self.deviations += 1
             self.shapes["other_kind_store"] += 1
@@ -230,25 +235,27 @@ class CtlGen:
                 if hoist:
                     self.kind[hoist] = hk
                     self.shapes["hoisted_if"] += 1
-                disagree = hoist is not None and rng.random() < 0.08
+                disagree = hoist is not None and rng.random() < 0.04
                 brs = []
                 for bi in range(nb):
                     ch = set(readable)
-                    body = self.block(ch, known, depth - 1, True)
+                    head = []
                     if hoist:
                         kk = hk
                         if disagree and bi == nb - 1:
                             kk = "float" if hk != "float" else "int"
-                        body = [("assign", hoist, self.g.expr(kk, 1, self.rd(ch))), ("write", hoist)] + body
+                        head = [("assign", hoist, self.g.expr(kk, 1, self.rd(ch))), ("write", hoist)]
+                    body = head + self.block(ch, known, depth - 1, True)
                     brs.append((self.g.bool_e(1, self.rd(readable)), body))
                 els = None
                 if rng.random() < 0.6 or disagree:
                     self.shapes["else"] += 1
                     ch = set(readable)
-                    els = self.block(ch, known, depth - 1, True)
+                    head = []
                     if hoist:
                         kk = ("float" if hk != "float" else "int") if (disagree and nb == 1) else hk
-                        els = [("assign", hoist, self.g.expr(kk, 1, self.rd(ch))), ("write", hoist)] + els
+                        head = [("assign", hoist, self.g.expr(kk, 1, self.rd(ch))), ("write", hoist)]
+                    els = head + self.block(ch, known, depth - 1, True)
                 if disagree:
                     self.deviations += 1
                     self.shapes["branch_disagree"] += 1
@@ -262,7 +269,7 @@ class CtlGen:
                 out.append(("assign", k, "0"))
                 ch = set(readable) | {k}
                 body = []
-                early = rng.random() < 0.06
+                early = rng.random() < 0.04
                 if early:                                   # a name read (in text order) before the line that types it
                     z, b = self.fresh("z"), self.fresh("b")
                     self.kind[z], self.kind[b] = "float", "float"
@@ -350,18 +357,16 @@ class FnBodyGen:
                     self.kind[hoist] = rng.choice(["int", "float"])
                 for _b in range(rng.choice([1, 1, 2])):
                     ch = set(readable)
-                    body = self.block(ch, known, depth - 1, rk, True)
-                    if hoist:
-                        body = [("assign", hoist, self.g.expr(self.kind[hoist], 1, self.rd(ch)))] + body
+                    head = [("assign", hoist, self.g.expr(self.kind[hoist], 1, self.rd(ch)))] if hoist else []
+                    body = head + self.block(ch, known, depth - 1, rk, True)
                     if rng.random() < 0.4:
                         body.append(self.ret(ch, rk, True))
                     brs.append((self.g.bool_e(1, self.rd(readable)), body))
                 els = None
                 if hoist or rng.random() < 0.4:
                     ch = set(readable)
-                    els = self.block(ch, known, depth - 1, rk, True)
-                    if hoist:
-                        els = [("assign", hoist, self.g.expr(self.kind[hoist], 1, self.rd(ch)))] + els
+                    head = [("assign", hoist, self.g.expr(self.kind[hoist], 1, self.rd(ch)))] if hoist else []
+                    els = head + self.block(ch, known, depth - 1, rk, True)
                 out.append(("if", brs, els))
                 if hoist:
                     known.add(hoist)
@@ -371,9 +376,8 @@ class FnBodyGen:
                 i = self.fresh("i")
                 self.kind[i] = "int"
                 ch = set(readable) | {i}
-                body = self.block(ch, known, depth - 1, rk, True)
-                if rng.random() < 0.4:
-                    body = [("if", [(self.g.bool_e(1, self.rd(ch)), [self.ret(ch, rk, True)])], None)] + body
+                head = [("if", [(self.g.bool_e(1, self.rd(ch)), [self.ret(ch, rk, True)])], None)] if rng.random() < 0.4 else []
+                body = head + self.block(ch, known, depth - 1, rk, True)
                 out.append(("for", i, str(rng.choice([1, 2, 3])), body))
             elif depth > 0 and r < 0.46:
                 k = self.fresh("k")
